@@ -28,6 +28,19 @@ type recorder struct {
 	ops  []string
 	mode string // ok | err | nf
 	win  *expWindow
+	out  interface{} // the value handed to the server by the last call
+}
+
+func (r *recorder) setOut(v interface{}) {
+	r.mu.Lock()
+	r.out = v
+	r.mu.Unlock()
+}
+
+func (r *recorder) lastOut() interface{} {
+	r.mu.Lock()
+	defer r.mu.Unlock()
+	return r.out
 }
 
 func (r *recorder) reset(mode string, w *expWindow) {
@@ -35,6 +48,7 @@ func (r *recorder) reset(mode string, w *expWindow) {
 	r.ops = nil
 	r.mode = mode
 	r.win = w
+	r.out = nil
 	r.mu.Unlock()
 }
 
@@ -134,22 +148,26 @@ func cannedRepoGC(p peer.ID) api.RepoGC {
 func (s *recCluster) ID(ctx context.Context, in struct{}, out *api.ID) error {
 	err := s.r.rec("Cluster.ID", "u")
 	*out = cannedID(common.PeerN(0))
+	s.r.setOut(*out)
 	return err
 }
 func (s *recCluster) Version(ctx context.Context, in struct{}, out *api.Version) error {
 	err := s.r.rec("Cluster.Version", "u")
 	*out = api.Version{Version: "0.14.0-c11"}
+	s.r.setOut(*out)
 	return err
 }
 func (s *recCluster) Peers(ctx context.Context, in struct{}, out *[]*api.ID) error {
 	err := s.r.rec("Cluster.Peers", "u")
 	a, b := cannedID(common.PeerN(0)), cannedID(common.PeerN(1))
 	*out = []*api.ID{&a, &b}
+	s.r.setOut(*out)
 	return err
 }
 func (s *recCluster) PeerAdd(ctx context.Context, in peer.ID, out *api.ID) error {
 	err := s.r.rec("Cluster.PeerAdd", "p", strconv.Itoa(peerIdx(in)))
 	*out = cannedID(in)
+	s.r.setOut(*out)
 	return err
 }
 func (s *recCluster) PeerRemove(ctx context.Context, in peer.ID, out *struct{}) error {
@@ -158,6 +176,7 @@ func (s *recCluster) PeerRemove(ctx context.Context, in peer.ID, out *struct{}) 
 func (s *recCluster) Pins(ctx context.Context, in struct{}, out *[]*api.Pin) error {
 	err := s.r.rec("Cluster.Pins", "u")
 	*out = cannedPins()
+	s.r.setOut(*out)
 	return err
 }
 func (s *recCluster) PinGet(ctx context.Context, in cid.Cid, out *api.Pin) error {
@@ -165,60 +184,71 @@ func (s *recCluster) PinGet(ctx context.Context, in cid.Cid, out *api.Pin) error
 	p := api.PinCid(in)
 	p.Name = "got"
 	*out = *p
+	s.r.setOut(*out)
 	return err
 }
 func (s *recCluster) StatusAll(ctx context.Context, in api.TrackerStatus, out *[]*api.GlobalPinInfo) error {
 	err := s.r.rec("Cluster.StatusAll", "n", strconv.Itoa(int(in)))
 	g := cannedGPI(common.CidN(0), filterStatus(in))
 	*out = []*api.GlobalPinInfo{&g}
+	s.r.setOut(*out)
 	return err
 }
 func (s *recCluster) StatusAllLocal(ctx context.Context, in api.TrackerStatus, out *[]*api.PinInfo) error {
 	err := s.r.rec("Cluster.StatusAllLocal", "n", strconv.Itoa(int(in)))
 	p := cannedPinInfo(common.CidN(0), filterStatus(in))
 	*out = []*api.PinInfo{&p}
+	s.r.setOut(*out)
 	return err
 }
 func (s *recCluster) Status(ctx context.Context, in cid.Cid, out *api.GlobalPinInfo) error {
 	err := s.r.rec("Cluster.Status", "c", cidTok(in))
 	*out = cannedGPI(in, api.TrackerStatusPinned)
+	s.r.setOut(*out)
 	return err
 }
 func (s *recCluster) StatusLocal(ctx context.Context, in cid.Cid, out *api.PinInfo) error {
 	err := s.r.rec("Cluster.StatusLocal", "c", cidTok(in))
 	*out = cannedPinInfo(in, api.TrackerStatusPinned)
+	s.r.setOut(*out)
 	return err
 }
 func (s *recCluster) RecoverAll(ctx context.Context, in struct{}, out *[]*api.GlobalPinInfo) error {
 	err := s.r.rec("Cluster.RecoverAll", "u")
 	g := cannedGPI(common.CidN(1), api.TrackerStatusPinning)
 	*out = []*api.GlobalPinInfo{&g}
+	s.r.setOut(*out)
 	return err
 }
 func (s *recCluster) RecoverAllLocal(ctx context.Context, in struct{}, out *[]*api.PinInfo) error {
 	err := s.r.rec("Cluster.RecoverAllLocal", "u")
 	p := cannedPinInfo(common.CidN(1), api.TrackerStatusPinning)
 	*out = []*api.PinInfo{&p}
+	s.r.setOut(*out)
 	return err
 }
 func (s *recCluster) Recover(ctx context.Context, in cid.Cid, out *api.GlobalPinInfo) error {
 	err := s.r.rec("Cluster.Recover", "c", cidTok(in))
 	*out = cannedGPI(in, api.TrackerStatusPinning)
+	s.r.setOut(*out)
 	return err
 }
 func (s *recCluster) RecoverLocal(ctx context.Context, in cid.Cid, out *api.PinInfo) error {
 	err := s.r.rec("Cluster.RecoverLocal", "c", cidTok(in))
 	*out = cannedPinInfo(in, api.TrackerStatusPinning)
+	s.r.setOut(*out)
 	return err
 }
 func (s *recCluster) Pin(ctx context.Context, in *api.Pin, out *api.Pin) error {
 	err := s.r.rec("Cluster.Pin", "pin", pinTok(in, s.r.window()), storedMode(in))
 	*out = *in
+	s.r.setOut(*out)
 	return err
 }
 func (s *recCluster) Unpin(ctx context.Context, in *api.Pin, out *api.Pin) error {
 	err := s.r.rec("Cluster.Unpin", "pin", pinTok(in, s.r.window()), storedMode(in))
 	*out = *in
+	s.r.setOut(*out)
 	return err
 }
 
@@ -228,22 +258,26 @@ func resolvedCid() cid.Cid { return common.CidN(9) }
 func (s *recCluster) PinPath(ctx context.Context, in *api.PinPath, out *api.Pin) error {
 	err := s.r.rec("Cluster.PinPath", "path", pathTok(in.Path), optsTok(&in.PinOptions, s.r.window()))
 	*out = *api.PinWithOpts(resolvedCid(), in.PinOptions)
+	s.r.setOut(*out)
 	return err
 }
 func (s *recCluster) UnpinPath(ctx context.Context, in *api.PinPath, out *api.Pin) error {
 	err := s.r.rec("Cluster.UnpinPath", "path", pathTok(in.Path), optsTok(&in.PinOptions, s.r.window()))
 	*out = *api.PinWithOpts(resolvedCid(), in.PinOptions)
+	s.r.setOut(*out)
 	return err
 }
 func (s *recCluster) RepoGC(ctx context.Context, in struct{}, out *api.GlobalRepoGC) error {
 	err := s.r.rec("Cluster.RepoGC", "u")
 	a, b := cannedRepoGC(common.PeerN(0)), cannedRepoGC(common.PeerN(1))
 	*out = api.GlobalRepoGC{PeerMap: map[string]*api.RepoGC{peer.Encode(a.Peer): &a, peer.Encode(b.Peer): &b}}
+	s.r.setOut(*out)
 	return err
 }
 func (s *recCluster) RepoGCLocal(ctx context.Context, in struct{}, out *api.RepoGC) error {
 	err := s.r.rec("Cluster.RepoGCLocal", "u")
 	*out = cannedRepoGC(common.PeerN(0))
+	s.r.setOut(*out)
 	return err
 }
 func (s *recCluster) ConnectGraph(ctx context.Context, in struct{}, out *api.ConnectGraph) error {
@@ -257,16 +291,19 @@ func (s *recCluster) ConnectGraph(ctx context.Context, in struct{}, out *api.Con
 		ClusterTrustLinks: map[string]bool{p0: true, p1: false},
 		ClustertoIPFS:     map[string]peer.ID{p0: common.PeerN(2), p1: common.PeerN(3)},
 	}
+	s.r.setOut(*out)
 	return err
 }
 func (s *recCluster) Alerts(ctx context.Context, in struct{}, out *[]api.Alert) error {
 	err := s.r.rec("Cluster.Alerts", "u")
 	*out = []api.Alert{{Metric: api.Metric{Name: "ping", Peer: common.PeerN(1), Value: "v", Expire: 1600000000000000000, Valid: true, ReceivedAt: 1599999999000000000}, TriggeredAt: fixedTime}}
+	s.r.setOut(*out)
 	return err
 }
 func (s *recCluster) BlockAllocate(ctx context.Context, in *api.Pin, out *[]peer.ID) error {
 	err := s.r.rec("Cluster.BlockAllocate", "pin", pinTok(in, s.r.window()), storedMode(in))
 	*out = []peer.ID{""}
+	s.r.setOut(*out)
 	return err
 }
 
@@ -275,11 +312,13 @@ func (s *recCluster) BlockAllocate(ctx context.Context, in *api.Pin, out *[]peer
 func (s *recMonitor) LatestMetrics(ctx context.Context, in string, out *[]*api.Metric) error {
 	err := s.r.rec("PeerMonitor.LatestMetrics", "s", tokOfText(in))
 	*out = []*api.Metric{{Name: in, Peer: common.PeerN(0), Value: "1", Expire: 1600000000000000000, Valid: true, ReceivedAt: 1599999999000000000}}
+	s.r.setOut(*out)
 	return err
 }
 func (s *recMonitor) MetricNames(ctx context.Context, in struct{}, out *[]string) error {
 	err := s.r.rec("PeerMonitor.MetricNames", "u")
 	*out = []string{"ping", "freespace"}
+	s.r.setOut(*out)
 	return err
 }
 
